@@ -10,19 +10,23 @@ REPO=${VERIF_REPO:-/repo}
 # extra monitor; the ordinary binary starts it for a share of its workers
 build_race() {
   if [ "$REPO" != "/repo" ]; then
-    (cd sim && go build -race -modfile=go.alt.mod -tags "verif verifrace" -o ../bin/simcheck-race ./cmd/simcheck) || return 2
+    (cd sim && go build -race -modfile=go.alt.mod -overlay "$VERIF_DIR/bin/overlay_norm.json" -tags "verif verifrace" -o ../bin/simcheck-race ./cmd/simcheck) || return 2
   else
-    (cd sim && go build -race -tags "verif verifrace" -o ../bin/simcheck-race ./cmd/simcheck) || return 2
+    (cd sim && go build -race -overlay "$VERIF_DIR/bin/overlay_norm.json" -tags "verif verifrace" -o ../bin/simcheck-race ./cmd/simcheck) || return 2
   fi
 }
 build() {
   mkdir -p bin
   cp "$REPO/go.sum" sim/go.sum 2>/dev/null
+  # lock hooks that an edit has separated from their mutex call are re-attached in a
+  # compiled copy (sim/cmd/normhooks); on the unchanged tree the overlay is empty
+  (cd sim && go build -o ../bin/normhooks ./cmd/normhooks) || return 2
+  ./bin/normhooks "$REPO" "$VERIF_DIR/bin" || return 2
   if [ "$REPO" != "/repo" ]; then
     sed "s#=> /repo#=> $REPO#" sim/go.mod > sim/go.alt.mod; cp sim/go.sum sim/go.alt.sum
-    (cd sim && go build -modfile=go.alt.mod -tags verif -o ../bin/simcheck ./cmd/simcheck) || return 2
+    (cd sim && go build -modfile=go.alt.mod -overlay "$VERIF_DIR/bin/overlay_norm.json" -tags verif -o ../bin/simcheck ./cmd/simcheck) || return 2
   else
-    (cd sim && go build -tags verif -o ../bin/simcheck ./cmd/simcheck) || return 2
+    (cd sim && go build -overlay "$VERIF_DIR/bin/overlay_norm.json" -tags verif -o ../bin/simcheck ./cmd/simcheck) || return 2
   fi
 }
 case "$1" in
